@@ -509,11 +509,16 @@ class StmtMixin:
         rec = lc.get('record', {})
         rec = {nm: (v + (None,))[:3] for nm, v in rec.items()}
         for nm, (kind, src, at_src) in rec.items():
-            p.ghost.setdefault('rec:' + nm, fresh('REC_' + nm, z3.ArraySort(I, sort_of(kind))))
+            # ghost history of THIS execution of the loop.  Indexed by the iteration number (no explicit index): one fixed array,
+            # entry k is DEFINED (assumed equal) by iteration k - each index is defined once, so the assumptions cannot conflict,
+            # and facts about [0,k) keep their syntactic form over the iteration (no store terms).  With an explicit index
+            # expression the array is updated by stores and havocked like a program variable.
+            if at_src is None: p.ghost['rec:' + nm] = fresh('REC_' + nm, z3.ArraySort(I, sort_of(kind)))
+            else: p.ghost.setdefault('rec:' + nm, fresh('REC_' + nm, z3.ArraySort(I, sort_of(kind))))
         # 1. initiation
         self.inv_eval(lc, ordinal, p, z3.IntVal(0), 'init', assume=False)
         mods = self.mods_of(s.body, p) | ({m for m in self.mods_of_target(s.target)} if not is_while else set())
-        mods = mods | {('ghost', 'rec:' + nm) for nm in rec}
+        mods = mods | {('ghost', 'rec:' + nm) for nm in rec if rec[nm][2] is not None}
         out = []
         # 2. arbitrary iteration
         h = p.fork(); k = fresh('k%d' % ordinal, I)
@@ -541,7 +546,7 @@ class StmtMixin:
                     for nm, (kind, src, at_src) in rec.items():
                         try: val = self.spec_value(src, r); idx = self.spec_value(at_src, r).t if at_src else k
                         except (Undecided, StaleContract): continue
-                        r.ghost['rec:' + nm] = z3.Store(r.ghost['rec:' + nm], idx, self.to_elem(kind, val))
+                        self.record_at(r, nm, at_src, idx, self.to_elem(kind, val))
                 if st in ('normal', 'continue'):
                     self.iter_snaps.append(snap)
                     try: self.apply_lemmas('loop%d.body_end' % ordinal, r)
@@ -549,7 +554,7 @@ class StmtMixin:
                     for nm, (kind, src, at_src) in rec.items():      # ghost history: value of a specification expression in iteration k
                         try: val = self.spec_value(src, r); idx = self.spec_value(at_src, r).t if at_src else k
                         except StaleContract: continue        # the recorded program variable is not bound on this path
-                        r.ghost['rec:' + nm] = z3.Store(r.ghost['rec:' + nm], idx, self.to_elem(kind, val))
+                        self.record_at(r, nm, at_src, idx, self.to_elem(kind, val))
                     self.inv_eval(lc, ordinal, r, k + 1, 'preserve', assume=False)
                     if 'variant' in lc and is_while:
                         v1 = self.spec_int(lc['variant'], r)
@@ -567,6 +572,10 @@ class StmtMixin:
         self.apply_lemmas('loop%d.exit' % ordinal, a)
         if self.feasible(a): out.append(('normal', a, None))
         return out
+
+    def record_at(self, r, nm, at_src, idx, elem):
+        if at_src is None: r.assume(z3.Select(r.ghost['rec:' + nm], idx) == elem)
+        else: r.ghost['rec:' + nm] = z3.Store(r.ghost['rec:' + nm], idx, elem)
 
     def spec_int(self, src, path):
         v = self.spec_value(src, path)
